@@ -89,6 +89,20 @@ Fixpoint bessel_sum_aux (q hD : T) (n : nat) (m : nat) (t acc : T) : T :=
 Definition bessel_sum (D : nat) (kappa : T) (n : nat) : T :=
   bessel_sum_aux (kappa *. kappa /. (two *. two)) (halfD D) n 0 (o1 P) (o1 P).
 
+(* Gamma(n/2), n >= 1, by the recurrence from Gamma(1/2) = sqrt(pi), Gamma(1) = 1 *)
+Fixpoint ogamma_half (n : nat) : T :=
+  match n with
+  | 0%nat => o0 P
+  | S 0%nat => osqrt P pi
+  | S (S m) => match m with 0%nat => o1 P | _ => onat P m /. two *. ogamma_half m end
+  end.
+(* the vMF log-normaliser with I_{D/2-1}(kappa) replaced by the n-th partial sum of its series:
+   log( (2 pi)^(D/2) * [ (kappa/2)^(D/2-1) / Gamma(D/2) * bessel_sum ] / kappa^(D/2-1) ) *)
+Definition vmf_lognorm_series (D : nat) (kappa : T) (n : nat) : T :=
+  halfD D *. oln P (two *. pi)
+  +. ((halfD D -. o1 P) *. oln P (kappa /. two) -. oln P (ogamma_half D) +. oln P (bessel_sum D kappa n))
+  -. (halfD D -. o1 P) *. oln P kappa.
+
 (* ------------------------------------------------------------------ complex Watson *)
 Section Watson.
 Variables (D : nat) (mu y : nat -> cx (T:=T)) (kappa h1f1 : T).
